@@ -84,7 +84,7 @@ def run(ck):
     nplans = 400 if quick else 6000
     plans = plans[:nplans]
     cases = []
-    SCRIPTS = ["plain", "modules", "strindex", "fails", "fails2", "strinput", "stmod", "fmtlimit"]
+    SCRIPTS = ["plain", "modules", "strindex", "fails", "fails2", "strinput", "stmod", "fmtlimit", "randmod", "modules"]
     for i, p in enumerate(plans):
         script = SCRIPTS[i % len(SCRIPTS)]
         cases.append({"id": i + 1, "plan": {str(g): ops for g, ops in p.items()}, "script": script, "reps": 3 if quick else 10})
@@ -92,7 +92,7 @@ def run(ck):
     # so a race on a string *input* is not mistaken for the recorded race on string *constants*)
     res = {}
     racedirs = {}
-    for script in SCRIPTS:
+    for script in sorted(set(SCRIPTS)):
         sub = [c for c in cases if c["script"] == script]
         racedirs[script] = ck.path("race-" + script)
         os.makedirs(racedirs[script], exist_ok=True)
